@@ -99,3 +99,44 @@ def merge_units(name, units, keep=None):
             u.results.append(r)
         u.functions_used.update(x.functions_used)
     return u
+
+
+def partition_lemmas(u, prefix, what):
+    """L-partition, by two nested inductions over the recursive definitions
+         C(b, k+1) = C(b, k) + [bin(k) = b],  C(b, 0) = 0          (count of the samples < k that fall in bin b)
+         T(k, m+1) = T(k, m) + C(m, k),       T(k, 0) = 0          (sum of the counts of the bins < m)
+    : T(k+1, m) = T(k, m) + [bin(k) < m]  (induction on m), hence T(k, B) = k when every bin(k) is in [0, B)  (induction on k)."""
+    I = z3.IntSort()
+
+    def defs(ctx):
+        C, T, binf = z3.Function('C', I, I, I), z3.Function('T', I, I, I), z3.Function('bin', I, I)
+        return C, T, binf
+
+    def step_m(ctx):
+        C, T, binf = defs(ctx)
+        k, m = z3.Ints('k m')
+        ind = lambda c: z3.If(c, 1, 0)  # noqa: E731
+        ctx.assume(z3.And(k >= 0, m >= 0, binf(k) >= 0))
+        ctx.assume(z3.And(T(k, 0) == 0, T(k + 1, 0) == 0, T(k, m + 1) == T(k, m) + C(m, k), T(k + 1, m + 1) == T(k + 1, m) + C(m, k + 1),
+                          C(m, k + 1) == C(m, k) + ind(binf(k) == m)))
+        ctx.assume(T(k + 1, m) == T(k, m) + ind(binf(k) < m))
+        return [('base (m = 0)', T(k + 1, 0) == T(k, 0) + ind(binf(k) < 0)), ('step', T(k + 1, m + 1) == T(k, m + 1) + ind(binf(k) < m + 1))]
+    u.lemma(f'{prefix}.L-partition.one-more-sample(induction on bins)', step_m)
+
+    def zero(ctx):
+        C, T, binf = defs(ctx)
+        m = z3.Int('m')
+        ctx.assume(z3.And(m >= 0, T(0, 0) == 0, T(0, m + 1) == T(0, m) + C(m, 0), C(m, 0) == 0))
+        ctx.assume(T(0, m) == 0)
+        return [('base', T(0, 0) == 0), ('step', T(0, m + 1) == 0)]
+    u.lemma(f'{prefix}.L-partition.no-samples(induction on bins)', zero)
+
+    def step_k(ctx):
+        C, T, binf = defs(ctx)
+        k, B = z3.Ints('k B')
+        ctx.assume(z3.And(k >= 0, B >= 1, binf(k) >= 0, binf(k) < B))
+        ctx.assume(T(k + 1, B) == T(k, B) + z3.If(binf(k) < B, 1, 0))  # previous lemma at m = B
+        ctx.assume(T(0, B) == 0)  # previous lemma
+        ctx.assume(T(k, B) == k)
+        return [('base', T(0, B) == 0), (f'step: {what}', T(k + 1, B) == k + 1)]
+    u.lemma(f'{prefix}.L-partition.total(induction on samples)', step_k)
